@@ -99,6 +99,15 @@ CHECKS = {
               "stated induction over program structure."),
         technique="contract-based deductive verification: end-to-end symbolic execution of the real SDK/assembler/executor per construct, postconditions from direct semantics, z3 LIA",
         design_ref="5.C05"),
+    "C06": dict(
+        category="proof",
+        text=("from_operands(x.operands) == x for every instruction class and all operand values; instantiate == substitution (KeyError iff a template is "
+              "missing); and for a host program with a template in a rotation angle, compile + instantiate(v) + commit_subroutine sends the same subroutines, "
+              "causes the same controller events, gives the host the same values and leaves the connection in the same state as flush() of the program written "
+              "with v -- for all v (0..1000), all denominators, the three axes, with and without the NV transpiler, incl. later flushes and operations queued "
+              "between compile and commit."),
+        technique="contract-based deductive verification: substitution contracts per shape + end-to-end symbolic equality of templated and direct path through the real SDK/assembler/executor, z3 LIA",
+        design_ref="5.C06"),
     "C19": dict(
         category="proof",
         text=("Loop-invariant proof of get_angle_spec_from_float over the reals for every angle and every tolerance in [1e-9, 1]: the real loop "
